@@ -454,7 +454,14 @@ class Session:
             other, omodel = self._foreign(op["spec"])
             P_ = self.mnode(op["parent"])
             if not omodel.top:
-                outcome = M.Unspec("adding an empty tree")
+                # "all of its topnodes are added": none - nothing changes (an invalid position is still invalid)
+                pos = m._position(m.kids(P_), self._before_model(op.get("before")))
+                if op.get("via") == "copy_to":
+                    outcome = M.Unspec("copy_to of an empty tree")
+                elif isinstance(pos, int):
+                    outcome = M.Ok(("any",))
+                else:
+                    outcome = pos
             else:
                 deep = op.get("deep")
                 outcome = m.add_many(P_, list(omodel.top), True if deep is None else bool(deep),
@@ -822,6 +829,11 @@ def _gen_kind(s, rng, k, nodes, hostile, allow_unspec):
         op["via"] = via
         if rng.random() < 0.03:
             op["node_id"] = rng.randint(1, 10**6)
+        elif s.flavour in ("int", "expl") and rng.random() < 0.12:
+            # a small node_id that may equal another node's (int) data_id: index access has to prefer the node_id
+            nid = rng.randint(1, 9)
+            if not any(r.node_id == nid for r in s.bind.values()):
+                op["node_id"] = nid
         elif hostile and allow_unspec and nodes and rng.random() < 0.02:
             # a node_id that is already in use (bound real node): must not end in two nodes sharing one id
             try:
@@ -835,7 +847,11 @@ def _gen_kind(s, rng, k, nodes, hostile, allow_unspec):
             return None
         n = rng.choice(nodes)
         op = {"op": "sibling", "node": n.uid, "data": s.mkdata(rng), "which": rng.choice(["prepend_sibling", "append_sibling"])}
+        did = s.mkid(rng) if rng.random() < 0.5 else (rng.choice(["SX", 77]) if rng.random() < 0.25 else None)
+        if did is not None:
+            op["data_id"] = did
         if hostile and rng.random() < 0.2:
+            op.pop("data_id", None)
             sib = rng.choice(m.kids(m.parent_of(n)))
             op["data"] = sib.data
             if sib.data_id != m.rule(sib.data):
@@ -997,6 +1013,8 @@ def _gen_kind(s, rng, k, nodes, hostile, allow_unspec):
             return [[l, None, spec(depth + 1) if depth < 2 and rng.random() < 0.4 else []] for l in labs]
 
         sp = spec(0)
+        if rng.random() < 0.12:
+            sp = []  # an empty tree: nothing to add, whatever the position
         if s.flavour not in ("str", "expl"):
             sp = [[f"F{l}", d, k2] for l, d, k2 in sp]
         op = {"op": "addtree", "parent": p, "spec": sp, "deep": rng.choice([None, None, True, False]),
